@@ -21,6 +21,7 @@ package openapi3
 
 //@ func (*T).addSchemaToSpec
 //@   requires doc != nil
+//@   assuming @C20 refNameResolver != nil
 //@   modifies *
 //@   modifies inheritedExternal
 //@   records inheritedExternal := parentIsExternal
@@ -34,6 +35,7 @@ package openapi3
 
 //@ func (*T).addParameterToSpec
 //@   requires doc != nil
+//@   assuming @C20 refNameResolver != nil
 //@   modifies *
 //@   modifies inheritedExternal
 //@   records inheritedExternal := parentIsExternal
@@ -47,6 +49,7 @@ package openapi3
 
 //@ func (*T).addHeaderToSpec
 //@   requires doc != nil
+//@   assuming @C20 refNameResolver != nil
 //@   modifies *
 //@   modifies inheritedExternal
 //@   records inheritedExternal := parentIsExternal
@@ -60,6 +63,7 @@ package openapi3
 
 //@ func (*T).addRequestBodyToSpec
 //@   requires doc != nil
+//@   assuming @C20 refNameResolver != nil
 //@   modifies *
 //@   modifies inheritedExternal
 //@   records inheritedExternal := parentIsExternal
@@ -73,6 +77,7 @@ package openapi3
 
 //@ func (*T).addResponseToSpec
 //@   requires doc != nil
+//@   assuming @C20 refNameResolver != nil
 //@   modifies *
 //@   modifies inheritedExternal
 //@   records inheritedExternal := parentIsExternal
@@ -86,6 +91,7 @@ package openapi3
 
 //@ func (*T).addSecuritySchemeToSpec
 //@   requires doc != nil
+//@   assuming @C20 refNameResolver != nil
 //@   modifies *
 //@   modifies inheritedExternal
 //@   records inheritedExternal := parentIsExternal
@@ -99,6 +105,7 @@ package openapi3
 
 //@ func (*T).addExampleToSpec
 //@   requires doc != nil
+//@   assuming @C20 refNameResolver != nil
 //@   modifies *
 //@   modifies inheritedExternal
 //@   records inheritedExternal := parentIsExternal
@@ -112,6 +119,7 @@ package openapi3
 
 //@ func (*T).addLinkToSpec
 //@   requires doc != nil
+//@   assuming @C20 refNameResolver != nil
 //@   modifies *
 //@   modifies inheritedExternal
 //@   records inheritedExternal := parentIsExternal
@@ -125,6 +133,7 @@ package openapi3
 
 //@ func (*T).addCallbackToSpec
 //@   requires doc != nil
+//@   assuming @C20 refNameResolver != nil
 //@   modifies *
 //@   modifies inheritedExternal
 //@   records inheritedExternal := parentIsExternal
@@ -173,7 +182,7 @@ package openapi3
 //@   loop 2 invariant parentIsExternal ==> pathIsExternal
 //@   loop 3 invariant parentIsExternal ==> pathIsExternal
 //@   loop 4 invariant parentIsExternal ==> pathIsExternal
-//@   option safety-tags C20
+//@   option safety-tags none
 //@   tag C16
 // the other descent functions: frames only (they may run derefSchema, which resets the ghost)
 //@ func (*T).derefHeaders
@@ -183,8 +192,12 @@ package openapi3
 //@   modifies *
 //@   modifies inheritedExternal
 //@ func (*T).derefContent
+//@   requires doc != nil
+//@   assuming @C20 refNameResolver != nil
 //@   modifies *
 //@   modifies inheritedExternal
+//@   option safety-tags C20
+//@   tag C16
 //@ func (*T).derefLinks
 //@   modifies *
 //@   modifies inheritedExternal
